@@ -136,6 +136,7 @@ func (qe *queryEvent) startQueryListener() {
 	for {
 		select {
 		case m := <-qe.ch:
+			verifNote("s.qrequest", m.Reply, 0)
 			qe.r.s.runWith(qe.r.Group(), func() {
 				qe.handleQueryRequest(m)
 			})
